@@ -566,12 +566,14 @@ class SecopClient(ProxyClient):
         if shutdown:
             self._shutdown.set()
             self._set_state(False, 'shutdown')
-            if self._connthread:
-                if self._connthread == current_thread():
+            connthread = self._connthread  # the thread clears self._connthread by itself when done
+            if connthread:
+                if connthread == current_thread():
                     return
                 # wait for connection thread stopped
-                self._connthread.join()
-                self._connthread = None
+                connthread.join()
+                if self._connthread == connthread:
+                    self._connthread = None
         self.disconnect_time = time.time()
         try:  # make sure txq does not block
             while not self.txq.empty():
@@ -580,18 +582,26 @@ class SecopClient(ProxyClient):
                     entry[1].set()  # release the caller of a request which was not sent
         except Exception:
             pass
-        if self.io:
-            self.io.shutdown()
-        if self._txthread:
+        # the rx and tx threads clear self._rxthread / self._txthread by themselves and
+        # a concurrent connect may replace self.io: work on local references
+        io = self.io
+        if io:
+            io.shutdown()
+        txthread = self._txthread
+        if txthread and txthread != current_thread():
             self.txq.put(None)  # shutdown marker
-            self._txthread.join()
-            self._txthread = None
-        if self._rxthread:
-            self._rxthread.join()
-            self._rxthread = None
-        if self.io:
-            self.io.disconnect()
-        self.io = None
+            txthread.join()
+            if self._txthread == txthread:
+                self._txthread = None
+        rxthread = self._rxthread
+        if rxthread and rxthread != current_thread():
+            rxthread.join()
+            if self._rxthread == rxthread:
+                self._rxthread = None
+        if io:
+            io.disconnect()
+        if self.io == io:
+            self.io = None
         # abort pending requests early
         try:  # avoid race condition
             while self.active_requests:
